@@ -30,9 +30,9 @@ def parseDeputies (s : String) : Option (List Deputy) :=
 def parseTxs (s : String) : Option (List Tx) :=
   if s == "-" then some []
   else (s.splitOn ",").mapM (fun p => match p.splitOn ":" with
-    | [e, ok] => match e.toNat? with
-      | some e => some { id := 0, exp := e, bodyOk := ok == "1" }
-      | none => none
+    | [e, ok, ids] => match e.toNat?, (ids.splitOn "+").mapM String.toNat? with
+      | some e, some (i :: subs) => some { id := i, exp := e, bodyOk := ok == "1", subs := subs }
+      | _, _ => none
     | _ => none)
 
 def parseExec (s : String) : Option ExecRes :=
